@@ -19,6 +19,7 @@ import (
 )
 
 type Cfg struct {
+	RepoDir string // root of the repository under test (for schedule traces)
 	MaxSteps        int
 	Unwind          int
 	MaxDecisions    int
@@ -102,6 +103,7 @@ type PathResult struct {
 	Witness   Model
 	VarOrder  []string
 	Sched     []string
+	Ops       []opRec
 	Steps     int
 	Inputs    []inputRec
 	Exports   []exportRec
@@ -151,6 +153,8 @@ type Interp struct {
 	mu          sync.Mutex
 	preemptions int
 	schedTrace  []string
+	opTrace     []opRec
+	frameSerial int
 	chanSeq     int
 
 	// time
@@ -429,6 +433,7 @@ func (w *Worker) runPath(prefix []decision) (res *PathResult, funcs map[string]b
 		}
 		res.Decisions = in.decisions
 		res.Sched = in.schedTrace
+		res.Ops = in.opTrace
 		res.Steps = in.steps
 		funcs = in.funcs
 		if res.Witness == nil && (res.Outcome == outcomeOK || res.Outcome == outcomePanic || res.Outcome == outcomeDeadlock) {
